@@ -108,7 +108,7 @@ class Boc:
             'hash_crc32': None,
             'has_cache_bits': False,
             'flags': 0,
-            'size_bytes': data[0],
+            'size_bytes': None,
             'offset_bytes': None,
             'cells_num': None,
             'roots_num': None,
@@ -131,7 +131,13 @@ class Boc:
             result['hash_crc32'] = 1
         else:
             raise BocError(f'unknown boc prefix: {data[:4]}')
-        if data_len - 5 < 1 + 5 * result['size_bytes']:
+        is_generic = data[:4] == SERIALIZED_BOC_PREFIX
+        if data_len < 6:
+            raise BocError(f'can\'t parse boc header: {data[:4]}')
+        if not is_generic:
+            # serialized_boc_idx / serialized_boc_idx_crc32c: size:(## 8) follows the magic directly
+            result['size_bytes'] = data[4]
+        if data_len - 5 < 1 + 3 * result['size_bytes'] + data[5]:
             raise BocError(f'can\'t parse boc header: {data[:4]}')
         offset_bytes = data[5]
         result['offset_bytes'] = offset_bytes
@@ -144,11 +150,17 @@ class Boc:
         i = end + result['offset_bytes']
         result['tot_cells_size'] = bytes_to_uint(data[end: i])
 
-        if data_len - i < result['roots_num'] * size_bytes:
-            raise Exception("Not enough bytes for encoding root cells hashes")
-        end = i + result['roots_num'] * size_bytes
-        result['root_list'] = [bytes_to_uint(data[j: j + size_bytes]) for j in range(i, end,  size_bytes)]
-        i = end
+        if is_generic:
+            if data_len - i < result['roots_num'] * size_bytes:
+                raise Exception("Not enough bytes for encoding root cells hashes")
+            end = i + result['roots_num'] * size_bytes
+            result['root_list'] = [bytes_to_uint(data[j: j + size_bytes]) for j in range(i, end,  size_bytes)]
+            i = end
+        else:
+            # the legacy forms have exactly one root, the first cell, and no root list
+            if result['roots_num'] != 1:
+                raise BocError('expected exactly one root in indexed boc')
+            result['root_list'] = [0]
         if result['has_idx']:
             if data_len - i < offset_bytes * result['cells_num']:
                 raise BocError("Not enough bytes for index encoding")
